@@ -81,8 +81,9 @@ def Key.eqRep : Key → EqRep
 booleans and strings (`hash(1) = hash(1.0) = hash(Decimal(1)) = hash(True)`,
 `AnyURI.__hash__ = hash(value)`), on dates since the fix "date/time values hash by their instant"
 (`hash(self.todelta())`), on QNames and durations; an xs:hexBinary and an xs:base64Binary with the
-same octets are `==` but hash differently (assumption: no accidental collision), so they never
-meet in a dict. -/
+same octets are `==` but hash their *text* (`hash(value.upper())` / `hash(value)`), which differs
+unless both are empty (assumption: no accidental collision otherwise), so only the two empty
+binaries meet in a dict. -/
 inductive DictRep where
   | num (v : Rat) | nan | inf (neg : Bool) | text (s : List Nat) | date (utc : Int)
   | opq (tag : Nat) (rep : List Int)
@@ -98,7 +99,7 @@ def Key.dictRep : Key → DictRep
   | .str s => .text s
   | .uri s => .text s
   | .date _ u _ => .date u
-  | .opq t r => .opq t r
+  | .opq t r => .opq (if t = 4 ∧ r = [] then 3 else t) r   -- the two *empty* binaries have the same (empty) text, hence the same hash
 
 /-- same dict slot: `k in _map` / `_map[k]` of `XPathMap` (maps.py: NaN is stored under `None`,
 so two NaNs meet). -/
